@@ -7,6 +7,7 @@ CONSTANTS
   WCounts = {0, 1, 2, 4096, 5000}
   SOffs <- MC_BigSOffs
   VBufs = {"no", "full", "line"}
+  MFmts <- MC_None
   VSizes = {0}
   Extra <- MC_AllExtra
   Naive = FALSE
